@@ -12,6 +12,8 @@ PINS = {
     "CxxParser._discard_ctor_initializer": "7734cf1f4e4fddb31f943567",
     "CxxParser._parse_field": "1185f75a2b4379ede0104654",
     "CxxParser._parse_bitfield": "461c4046fd501aa1c634151c",
+    "CxxParser._parse_declarations": "af253c9cb8607bfedc3d6df9",
+    "CxxParser._parse_function": "9be2cc83cdcd42156746acb3",
 }
 
 
